@@ -50,6 +50,7 @@ func genC12(rng *rand.Rand, tier string) *core.Plan {
 	}
 	p.Ops = append(p.Ops, core.Op{K: "query", S: fmt.Sprint(rng.Intn(1 << 30)), A: int64(rng.Intn(1 << 20))})
 	p.Cfg["maporder"] = rng.Intn(2) // tape-chosen iteration order of Go maps in the code under test
+	p.Cfg["families"] = 1 + rng.Intn(2)
 	return p
 }
 
@@ -107,7 +108,7 @@ func runC12(c *core.RunCtx) {
 
 func queryC12(c *core.RunCtx, ra, rk *run, op core.Op) {
 	rng := rand.New(rand.NewSource(atoi(op.S)))
-	q := genQuery(rng, "C11", 1)
+	q := genQuery(rng, "C11", c.Plan.C("families", 1))
 	sqlText := q.sql()
 	before := len(rk.points)
 	exp := rk.expected(q, before)
